@@ -1,0 +1,28 @@
+//go:build verif
+
+package ro
+
+import "sync"
+
+var (
+	verifToChannelParkMu sync.Mutex
+	verifToChannelParkFn func()
+)
+
+// VerifSetToChannelPark installs (or, with nil, removes) a function that ToChannel calls on the
+// subscribing goroutine between the start of its feeding goroutine and the hand-out of the
+// channel to the destination. Only built with the tag `verif`.
+func VerifSetToChannelPark(f func()) {
+	verifToChannelParkMu.Lock()
+	verifToChannelParkFn = f
+	verifToChannelParkMu.Unlock()
+}
+
+func verifToChannelPark() {
+	verifToChannelParkMu.Lock()
+	f := verifToChannelParkFn
+	verifToChannelParkMu.Unlock()
+	if f != nil {
+		f()
+	}
+}
